@@ -9,10 +9,11 @@
    explained by a live branch, otherwise the first unexplained line is HW+1.  The orchestrator reads the HW lines. *)
 EXTENDS BlobStoreFault, TLC, Json, IOUtils
 
-VARIABLES l, dead
+VARIABLES l, dead,
+          wholeSeen   \* files (ranks) whose whole-file fast path (OpenWholeRef) has been seen to work since the last removal
 Trace == ndJsonDeserialize(IOEnv.TRACE_FILE)
 Ev == Trace[l]
-tvars == <<fvars, l, dead>>
+tvars == <<fvars, l, dead, wholeSeen>>
 
 SeqToSet(s) == {s[i] : i \in 1..Len(s)}
 
@@ -22,7 +23,7 @@ TInit == /\ l = 1
          /\ caps = [canRemove |-> TRUE, readOnly |-> FALSE, subfetch |-> "yes"]
          /\ reply = [op |-> "init", res |-> "ok", size |-> 0, list |-> <<>>]
          /\ limbo = {}
-         /\ dead = TRUE
+         /\ dead = TRUE /\ wholeSeen = {}
 
 ASSUME TLCSet(1, 0)
 Mark == IF l > TLCGet(1) THEN TLCSet(1, l) /\ PrintT(<<"HW", l>>) ELSE TRUE
@@ -37,7 +38,7 @@ TReset == /\ IsEv("reset")
           /\ caps' = [canRemove |-> Ev.canRemove, readOnly |-> Ev.readOnly, subfetch |-> Ev.subfetch]
           /\ reply' = [op |-> "init", res |-> "ok", size |-> 0, list |-> <<>>]
           /\ limbo' = {}
-          /\ dead' = FALSE
+          /\ dead' = FALSE /\ wholeSeen' = {}
 
 Act(e) ==
   CASE e.op = "receive"  -> OkReceive(e.b)
@@ -55,7 +56,8 @@ FailClasses == {"injected", "other", "failed", "corrupt", "readerr"}
 ReadFailClasses == FailClasses \cup {"notexist"}
 
 \* a call not hit by the fault, or hit but completed: exactly the reference behaviour
-TNormal == IsEv("op") /\ Live /\ Act(Ev) /\ Same(reply', Ev) /\ Mark
+AfterOp == wholeSeen' = IF Ev.op = "remove" THEN {} ELSE wholeSeen
+TNormal == IsEv("op") /\ Live /\ Act(Ev) /\ Same(reply', Ev) /\ AfterOp /\ Mark
 
 \* a call hit by the fault that returned an error
 TFailed == /\ IsEv("op") /\ Live /\ Ev.flt
@@ -63,24 +65,29 @@ TFailed == /\ IsEv("op") /\ Live /\ Ev.flt
            /\ CASE Ev.op = "receive" -> FailedReceive(Ev.b)
                 [] Ev.op = "remove"  -> FailedRemove(SeqToSet(Ev.bs))
                 [] OTHER             -> FailedRead(Ev.op)
-           /\ Mark
+           /\ AfterOp /\ Mark
 
-TRecover == IsEv("recover") /\ Live /\ Ev.res = "ok" /\ Recover /\ Mark
+TRecover == IsEv("recover") /\ Live /\ Ev.res = "ok" /\ Recover /\ UNCHANGED wholeSeen /\ Mark
 
-(* reading a whole file back through its schema (C04): succeeds exactly when every blob it needs is present *)
+(* reading a whole file back through its schema (C04): succeeds exactly when every blob it needs is present; and the
+   whole-file fast path (wholeref = OpenWholeRef served the file at every offset tried), once available, stays
+   available until something is removed - in particular across restarts and rebuilds of the metadata from the zips
+   ("after which all packed blobs and whole-file reads are served identically") *)
 TWhole == /\ IsEv("op") /\ Live /\ Ev.op = "whole"
           /\ (Ev.res = "ok") <=> (SeqToSet(Ev.needs) \subseteq present)
           /\ Ev.res \in {"ok", "notexist", "other", "readerr"}
+          /\ (Ev.res = "ok" /\ Ev.b \in wholeSeen) => Ev.wholeref
+          /\ wholeSeen' = IF Ev.res = "ok" /\ Ev.wholeref THEN wholeSeen \cup {Ev.b} ELSE wholeSeen
           /\ UNCHANGED fvars /\ Mark
 (* every zip in the large store is a valid blob within the size limit whose first entry is contiguous file content *)
-TZips == IsEv("zips") /\ Live /\ Ev.res = "ok" /\ UNCHANGED fvars /\ Mark
+TZips == IsEv("zips") /\ Live /\ Ev.res = "ok" /\ UNCHANGED <<fvars, wholeSeen>> /\ Mark
 
 (* giving up on a segment: one canonical dead state per line *)
 Canon == /\ present' = {} /\ size' = [b \in Blobs |-> 0]
          /\ caps' = [canRemove |-> TRUE, readOnly |-> FALSE, subfetch |-> "yes"]
-         /\ reply' = [op |-> "init", res |-> "ok", size |-> 0, list |-> <<>>] /\ limbo' = {}
+         /\ reply' = [op |-> "init", res |-> "ok", size |-> 0, list |-> <<>>] /\ limbo' = {} /\ wholeSeen' = {}
 TGiveUp == ~dead /\ l <= Len(Trace) /\ Ev.ev # "reset" /\ l' = l + 1 /\ dead' = TRUE /\ Canon
-TSkip == dead /\ l <= Len(Trace) /\ Ev.ev # "reset" /\ l' = l + 1 /\ UNCHANGED <<fvars, dead>>
+TSkip == dead /\ l <= Len(Trace) /\ Ev.ev # "reset" /\ l' = l + 1 /\ UNCHANGED <<fvars, dead, wholeSeen>>
 
 TNext == TReset \/ TNormal \/ TFailed \/ TRecover \/ TWhole \/ TZips \/ TGiveUp \/ TSkip
 TSpec == TInit /\ [][TNext]_tvars
